@@ -1,12 +1,11 @@
 (** C08 - Partitioning heuristics meet their proven worst-case guarantees.
-    PROVED for all inputs: greedy (LPT) and Karmarkar-Karp largest sum <= (4/3 - 1/(3k)) OPT (full statements: lpt_ratio_43, kk_ratio_43);
-    the gap largest - smallest <= largest item for greedy, Karmarkar-Karp and round-robin; round-robin's sums are non-increasing in
-    bin index and its cardinalities differ by at most one; weaker constants for every k: multifit largest <= (5/4 + 2^-it) OPT + 19/4 (and <= 2 OPT),
-    greedy smallest >= 3/4 OPTmin (the limit of the sharp constant) and >= k/(2k-1) OPTmin; the sharp greedy-smallest bound for 1 and 2 bins.
-    NOT proved (research-level case analyses, DESIGN section 8; tested against the verified oracle opt_value and planted optima):
-    greedy smallest >= (3k-1)/(4k-2) OPTmin; multifit 1.22 + 2^-iterations.
-    Statements only; proofs in Proofs/{GreedyProofs,KKProofs,CKKOptimal,RatioProofs,MultifitProofs,OracleSpec}.v. *)
-From Prtpy Require Import Base.Prelude Model.Binner Model.Objectives Model.Greedy Model.KK Model.Multifit Spec.Partition Oracle.Reach Proofs.GreedyProofs Proofs.KKProofs Proofs.CKKOptimal Proofs.RatioProofs Proofs.MultifitProofs Proofs.OracleSpec Proofs.KKRatioProofs Proofs.LPTMinProofs Proofs.LPTMinFullProofs Proofs.MultifitRatioProofs Proofs.KKRatio43Proofs.
+    PROVED for all inputs, in full: greedy (LPT) and Karmarkar-Karp largest sum <= (4/3 - 1/(3k)) OPT (lpt_ratio_43, kk_ratio_43);
+    greedy's smallest sum >= (3k-1)/(4k-2) OPTmin (lpt_min_exact); the gap largest - smallest <= largest item for greedy, Karmarkar-Karp and
+    round-robin; round-robin's sums are non-increasing in bin index and its cardinalities differ by at most one.
+    PARTIAL: multifit largest <= (5/4 + 2^-it) OPT + 19/4 on the float model (the constant 1.22 of Coffman, Garey and Johnson is NOT proved:
+    tested against the verified oracle opt_value and planted optima; the additive slack is the rounding of the float capacity search).
+    Statements only; proofs in Proofs/{GreedyProofs,KKProofs,RatioProofs,KKRatio43Proofs,LPTMinExactProofs,MultifitRatioProofs,OracleSpec}.v. *)
+From Prtpy Require Import Base.Prelude Model.Binner Model.Objectives Model.Greedy Model.KK Model.Multifit Spec.Partition Oracle.Reach Proofs.GreedyProofs Proofs.KKProofs Proofs.CKKOptimal Proofs.RatioProofs Proofs.MultifitProofs Proofs.OracleSpec Proofs.KKRatioProofs Proofs.LPTMinProofs Proofs.LPTMinFullProofs Proofs.MultifitRatioProofs Proofs.KKRatio43Proofs Proofs.LPTMinExactProofs.
 
 (** greedy: 3k * largest <= (4k - 1) * OPT, i.e. largest <= (4/3 - 1/(3k)) OPT *)
 Theorem C08_lpt_ratio_43 :
@@ -41,6 +40,17 @@ Theorem C08_kk_dichotomy_third :
   zmax (sums b) <= opt \/ zmax (sums b) - zmin (sums b) <= opt / 3.
 Proof. exact @kk_dichotomy_third. Qed.
 Print Assumptions C08_kk_dichotomy_third.
+
+(** greedy (LPT): (4k - 2) * smallest >= (3k - 1) * OPTmin for every k (Csirik, Kellerer, Woeginger 1992): the property's bound in full (v is the optimal value of the objective MaxSmallest, i.e. minus the optimal smallest sum) *)
+Theorem C08_lpt_min_exact :
+  forall (A : Type) (valueof : A -> Z) (keep : bool) (k : nat) (items : list A) (v : Z),
+  (1 <= k)%nat ->
+  Forall (fun x : A => 0 <= valueof x) items ->
+  Opt MaxSmallest k (map valueof items) v ->
+  (3 * Z.of_nat k - 1) * - v <=
+  (4 * Z.of_nat k - 2) * zmin (sums (greedy valueof keep k items)).
+Proof. exact @lpt_min_exact. Qed.
+Print Assumptions C08_lpt_min_exact.
 
 (** largest - smallest <= largest item *)
 Theorem C08_greedy_gap :
@@ -132,47 +142,6 @@ Theorem C08_ffd_capacity_54 :
   Packing.first_fit idZ false c (sort_desc idZ vs) = Ok b /\ (length b <= k)%nat.
 Proof. exact @ffd_capacity_54. Qed.
 Print Assumptions C08_ffd_capacity_54.
-
-(** PARTIAL: greedy smallest >= OPTmin - largest item *)
-Theorem C08_lpt_min_partial :
-  forall (A : Type) (valueof : A -> Z) (keep : bool) (k : nat) (items : list A) (v : Z),
-  (1 <= k)%nat ->
-  Forall (fun x : A => 0 <= valueof x) items ->
-  Opt MaxSmallest k (map valueof items) v ->
-  - v - zmax (map valueof items) <= zmin (sums (greedy valueof keep k items)).
-Proof. exact @lpt_min_partial. Qed.
-Print Assumptions C08_lpt_min_partial.
-
-(** PARTIAL (weaker constant, every k): greedy smallest >= k/(2k-1) OPTmin *)
-Theorem C08_lpt_min_ratio_half_partial :
-  forall (A : Type) (valueof : A -> Z) (keep : bool) (k : nat) (items : list A) (v : Z),
-  (1 <= k)%nat ->
-  Forall (fun x : A => 0 <= valueof x) items ->
-  Opt MaxSmallest k (map valueof items) v ->
-  Z.of_nat k * - v <= (2 * Z.of_nat k - 1) * zmin (sums (greedy valueof keep k items)).
-Proof. exact @lpt_min_ratio_half_partial. Qed.
-Print Assumptions C08_lpt_min_ratio_half_partial.
-
-(** PARTIAL: the full (3k-1)/(4k-2) bound for greedy's smallest sum with 1 or 2 bins *)
-Theorem C08_lpt_min_ratio_k12_partial :
-  forall (A : Type) (valueof : A -> Z) (keep : bool) (k : nat) (items : list A) (v : Z),
-  (1 <= k <= 2)%nat ->
-  Forall (fun x : A => 0 <= valueof x) items ->
-  Opt MaxSmallest k (map valueof items) v ->
-  (3 * Z.of_nat k - 1) * - v <=
-  (4 * Z.of_nat k - 2) * zmin (sums (greedy valueof keep k items)).
-Proof. exact @lpt_min_ratio_k12_partial. Qed.
-Print Assumptions C08_lpt_min_ratio_k12_partial.
-
-(** PARTIAL (the limit constant, every k): greedy smallest >= 3/4 OPTmin (Deuermeyer, Friesen and Langston); (3k-1)/(4k-2) tends to 3/4 from above *)
-Theorem C08_lpt_min_ratio_34_partial :
-  forall (A : Type) (valueof : A -> Z) (keep : bool) (k : nat) (items : list A) (v : Z),
-  (1 <= k)%nat ->
-  Forall (fun x : A => 0 <= valueof x) items ->
-  Opt MaxSmallest k (map valueof items) v ->
-  3 * - v <= 4 * zmin (sums (greedy valueof keep k items)).
-Proof. exact @lpt_min_ratio_34. Qed.
-Print Assumptions C08_lpt_min_ratio_34_partial.
 
 (** the yardstick for the unproved constants: opt_value is the true optimum *)
 Theorem C08_opt_value_oracle :
